@@ -300,39 +300,43 @@ def oracle_pyser(n: int, ops: typing.List[str]) -> typing.Optional[str]:
     stack: typing.List[tuple] = []
     base = 0
 
-    def put(bits: typing.List[int], need_aligned: bool = False) -> bool:
+    def put(bits: typing.List[int], need_aligned: bool = False, spare: bool = False):
+        """True: written; 'exc': the property demands an exception (the bits do not fit); False: outside the documented usage
+        (misaligned, or it fits but the byte-wise writers lack the spare byte they need): unconstrained"""
         nonlocal cur
         if need_aligned and cur % 8:
             return False
-        if base + cur + len(bits) + 8 > lim + (0 if not stack else 0):
+        if not bits and base + cur > lim:
+            return False
+        if bits and base + cur + len(bits) > lim:
+            return 'exc'
+        if bits and spare and (base + cur) // 8 + (len(bits) + 7) // 8 + 1 > lim // 8:
             return False
         for i, b in enumerate(bits):
-            if mem[base + cur + i] not in (0, b) and b == 0:
-                pass
             mem[base + cur + i] |= b
         cur += len(bits)
         return True
 
-    for op in ops:
+    for k_op, op in enumerate(ops):
         t = op.split(':')
         c = t[0]
         ok = True
         if c == 'sk':
             cur += int(t[1])
-            ok = base + cur + 8 <= lim
+            ok = True
         elif c == 'pad':
             k = int(t[1])
-            ok = k > 0 and put([0] * ((k - cur % k) % k))
+            ok = (k > 0) and put([0] * ((k - cur % k) % k))
         elif c == 'bit':
             ok = put([int(t[1] != '0')])
         elif c in ('ub', 'ab'):
-            ok = put(bytes_bits(unhex(t[1])), c == 'ab')
+            ok = put(bytes_bits(unhex(t[1])), c == 'ab', c == 'ub')
         elif c in ('au', 'uu'):
             v, b = int(t[1], 0), int(t[2])
-            ok = b >= 1 and v >= 0 and put(int_bits(v, b), c == 'au')          # implicit truncation: value mod 2^b
+            ok = b >= 1 and v >= 0 and put(int_bits(v, b), c == 'au', c == 'uu')          # implicit truncation: value mod 2^b
         elif c in ('as', 'us'):
             v, b = int(t[1]), int(t[2])
-            ok = b >= 2 and -(1 << (b - 1)) <= v < (1 << (b - 1)) and put(int_bits(v % (1 << b), b), c == 'as')
+            ok = b >= 2 and -(1 << (b - 1)) <= v < (1 << (b - 1)) and put(int_bits(v % (1 << b), b), c == 'as', c == 'us')
         elif c in ('u8', 'u16', 'u32', 'u64'):
             w, v = int(c[1:]), int(t[1], 0)
             ok = 0 <= v < ((1 << w) if w == 8 else (1 << 200)) and put(int_bits(v, w), True)     # u16/u32/u64 truncate, u8 rejects
@@ -340,11 +344,11 @@ def oracle_pyser(n: int, ops: typing.List[str]) -> typing.Optional[str]:
             w, v = int(c[1:]), int(t[1])
             ok = -(1 << (w - 1)) <= v < (1 << (w - 1)) and put(int_bits(v % (1 << w), w), True)
         elif c in ('abits', 'ubits'):
-            ok = put([int(ch == '1') for ch in ('' if t[1] == '-' else t[1])], c == 'abits')
+            ok = put([int(ch == '1') for ch in ('' if t[1] == '-' else t[1])], c == 'abits', c == 'ubits')
         elif c in ('af', 'uf'):
-            ok = put(bytes_bits(pack_float(int(t[1]), struct.unpack('<d', bytes.fromhex(t[2]))[0])), c == 'af')
+            ok = put(bytes_bits(pack_float(int(t[1]), struct.unpack('<d', bytes.fromhex(t[2]))[0])), c == 'af', c == 'uf')
         elif c in ('aa', 'ua'):
-            ok = put(bytes_bits(unhex(t[2])), c == 'aa')
+            ok = put(bytes_bits(unhex(t[2])), c == 'aa', c == 'ua')
         elif c == 'fork':
             k = int(t[1])
             if cur % 8 or base + cur + 8 * (k + 1) > lim:
@@ -355,6 +359,8 @@ def oracle_pyser(n: int, ops: typing.List[str]) -> typing.Optional[str]:
             base, cur, lim = stack.pop()
         else:
             return None
+        if ok == 'exc':
+            return 'EXC@%d' % k_op if not stack else None
         if not ok:
             return None
     if stack:
@@ -927,6 +933,22 @@ def gen_py_cases(rng, tier: str) -> typing.List[str]:
         if off % 8 == 0:
             for w in (16, 32, 64):
                 L.append('pyser 32 ' + ';'.join(prefix(off) + ['u%d:0x%x' % (w, (1 << (w + 3)) + rng.getrandbits(w)), 'uu:3:2', 'bit:1']))
+    # too-small buffers: every writer with the cursor around the end of buffers of 1..4 bytes (Serializer.new(0..3)); the property
+    # demands an exception as soon as the bits do not fit
+    small_ops = ['ab:77', 'ab:0102', 'ab:-', 'au:5:3', 'au:165:8', 'au:421:9', 'au:0x1ffff:17', 'as:-3:5', 'as:-300:11', 'abits:101', 'abits:111111111',
+                 'aa:<u1:09', 'aa:<u2:0102', 'u8:7', 'u16:258', 'u32:16909060', 'u64:72623859790382856', 'i8:-7', 'i16:-2', 'i32:-2', 'i64:-2',
+                 'af:2:000000000000f03f:003c', 'af:4:000000000000f03f:0000803f', 'af:8:000000000000f03f:000000000000f03f',
+                 'ub:ff', 'ub:ffee', 'ub:-', 'uu:5:3', 'uu:165:8', 'uu:421:9', 'us:-3:5', 'ubits:101', 'ubits:111111111', 'ua:<u1:09', 'ua:<u2:0102',
+                 'uf:2:000000000000f03f:003c', 'uf:8:000000000000f03f:000000000000f03f', 'bit:1', 'pad:8', 'pad:64']
+    for nreq in range(0, 4):
+        end = 8 * (nreq + 1)
+        for c0 in range(max(0, end - 26), end + 10):
+            for op in small_ops:
+                if op[0] == 'a' and op.split(':')[0] != 'af' and c0 % 8 and not op.startswith(('ab', 'au', 'as', 'aa')):
+                    continue
+                if op.split(':')[0] in ('ab', 'au', 'as', 'abits', 'aa', 'af', 'u8', 'u16', 'u32', 'u64', 'i8', 'i16', 'i32', 'i64') and c0 % 8:
+                    continue
+                L.append('pyser %d %s' % (nreq, ';'.join((['sk:%d' % c0] if c0 else []) + [op, 'bit:1'])))
     # degenerate bit lengths: the asserts of the source raise (compared with the model only)
     for off in (0, 5, 8):
         for op in ('uu:5:0', 'us:1:1', 'us:0:0', 'au:5:0', 'as:1:1'):
@@ -1117,7 +1139,7 @@ def run_shard(job: dict) -> dict:
     if job.get('model_exe'):
         for m in sorted({job.get('model_for_all') or t['model'] for t in job['targets'].values()} - {None}):
             out, err, rc = _run_exe([job['model_exe'], m], text)
-            if m == 'py':
+            if m in ('py', 'py-chk'):
                 out = [canon_pydes(l, g) for l, g in zip(lines, out)]
             model_out[m] = out if (rc == 0 and len(out) == len(lines)) else None
             if model_out[m] is None:
@@ -1165,7 +1187,10 @@ def run_shard(job: dict) -> dict:
                 pv = verdicts[i]
                 if pv is None or pv[0] != got:
                     pv = verdicts[i] = (got, meets(e, got))
-                if not pv[1] and len(res['oracle_bad']) < 50:
+                if not pv[1] and job.get('py_drop_live') and t['model'] == 'py' and isinstance(e, str) and drop_trigger(lines[i], e) \
+                        and mo is not None and mo[i] == got:
+                    res['known_instances'] = res.get('known_instances', 0) + 1      # F-PY-SER-SILENT-DROP: trigger holds, quirk model agrees
+                elif not pv[1] and len(res['oracle_bad']) < 50:
                     res['oracle_bad'].append({'target': name, 'line': lines[i], 'expected_by_property': str(e), 'implementation': got,
                                               'model': mo[i] if mo else None})
             if mo is not None:
@@ -1178,6 +1203,8 @@ def run_shard(job: dict) -> dict:
         if mo is None:
             continue
         for i, got in enumerate(mo):
+            if m == 'py' and job.get('py_drop_live') and isinstance(expected[i], str) and drop_trigger(lines[i], expected[i]):
+                continue
             if expected[i] is not None and not meets(expected[i], got) and len(res['model_bad']) < 50:
                 res['model_bad'].append({'target': 'model ' + m, 'line': lines[i], 'model': got, 'expected_by_property': str(expected[i])})
     res['strata'] = sorted(res['strata'])
@@ -1208,6 +1235,30 @@ def native_f16_job(job: dict) -> dict:
         except Exception:
             res['numpy'] = {'error': (err or '')[-300:], 'other': 0, 'values': 0}
     return res
+
+
+DROP_ID = 'F-PY-SER-SILENT-DROP'
+
+
+def drop_trigger(line: str, expected: str) -> bool:
+    """trigger of F-PY-SER-SILENT-DROP: the property demands an exception at op k and op k is an aligned slice writer whose packed
+    source is exactly one byte long"""
+    if not (line.startswith('pyser') and expected.startswith('EXC@')):
+        return False
+    ops = line.split(' ')[2].split(';')
+    k = int(expected[4:])
+    if k >= len(ops):
+        return False
+    t = ops[k].split(':')
+    if t[0] == 'ab':
+        return len(unhex(t[1])) == 1
+    if t[0] in ('au', 'as'):
+        return 1 <= int(t[2]) <= 8
+    if t[0] == 'abits':
+        return 1 <= len('' if t[1] == '-' else t[1]) <= 8
+    if t[0] == 'aa':
+        return len(unhex(t[2])) == 1
+    return False
 
 
 WRAP_ID = 'F-SETUXX-OFFSET-WRAP'
@@ -1293,7 +1344,19 @@ def main(chk: core.Check, replay: typing.Optional[str] = None) -> int:
     wrap_live = any(v.startswith('reproduces') for v in wrap.values())
     if wrap_live and chk.is_known(WRAP_ID):
         chk.report_known(WRAP_ID)
-    wrap_regression = wrap_live and not chk.is_known(WRAP_ID)     # fixed in /repo ba46e0a: if it comes back it is a violation
+    wrap_regression = wrap_live and not chk.is_known(WRAP_ID)
+    # F-PY-SER-SILENT-DROP: probe the witness on the rendered module; live -> quirk model `py` + KNOWN-FINDING line;
+    # repaired (design_notes/C14_py_too_small_fix.patch landed) -> model `py-chk`, no line
+    py_drop_live = False
+    if py_targets:
+        t = py_targets['py_support']
+        e = chk.known_entry(DROP_ID)
+        o, err, rc = _run_exe(t['cmd'], ((e or {}).get('witness', {}).get('line') or 'pyser 2 sk:24;ab:77') + '\n', env=t['env'])
+        py_drop_live = bool(o) and not o[0].startswith('EXC')
+        if py_drop_live and chk.is_known(DROP_ID):
+            chk.report_known(DROP_ID)
+        if not py_drop_live:
+            py_targets = {k: dict(v, model='py-chk') for k, v in py_targets.items()}     # fixed in /repo ba46e0a: if it comes back it is a violation
     timing['builds_s'] = round(time.time() - t0 - timing['coq_s'], 1)
     t1 = time.time()
     # 3. cases
@@ -1324,7 +1387,8 @@ def main(chk: core.Check, replay: typing.Optional[str] = None) -> int:
                                         (grid_targets, [l for l in lines if l.startswith('f16p ')], 'c-any')):
         if not fam_targets:
             continue
-        jobs += [{'lines': fam_lines[i:i + chunk], 'targets': fam_targets, 'model_exe': mexe, 'tie_stats_target': tie_target, 'model_for_all': mfa}
+        jobs += [{'lines': fam_lines[i:i + chunk], 'targets': fam_targets, 'model_exe': mexe, 'tie_stats_target': tie_target, 'model_for_all': mfa,
+                  'py_drop_live': py_drop_live and chk.is_known(DROP_ID)}
                  for i in range(0, len(fam_lines), chunk)]
     results = []
     with concurrent.futures.ProcessPoolExecutor(max_workers=min(8, max(1, len(jobs)))) as ex:
@@ -1390,7 +1454,8 @@ def main(chk: core.Check, replay: typing.Optional[str] = None) -> int:
                          'copy_strata_src_mod8_dst_mod8_len_mod8': '%d of 512' % len(strata),
                          'float16_pack_C_vs_struct_e': f16_vs_struct,
                          'float16_native_sweep_no_model': native,
-                         'offset_wrap_probe': wrap,
+                         'offset_wrap_probe': wrap, 'py_silent_drop_live': py_drop_live,
+                         'known_finding_instances': sum(r.get('known_instances', 0) for r in results),
                          'float16_rounding_rules': 'C/C++ nunavutFloat16Pack: nearest, ties away from zero (proved: f16_rounding_rule); '
                                                    'Python struct/NumPy: nearest, ties to even; both are allowed by C14 (nearest or adjacent)'},
     })
